@@ -5,7 +5,8 @@
    Part 2  erasure of the parser: parse_m and parse agree
    Part 3  make-owner and normalisation: erasure, ownership, fresh and distinct blocks
    Part 4  size discipline: allocation requests are counted in characters
-   Part 5  erasure of reference resolution and reference creation *)
+   Part 5  erasure of reference resolution and reference creation
+   Part 6  the statements used by Props/C12.v and Props/C19.v *)
 From Coq Require Import List NArith Bool Lia Arith ZifyBool ZifyN.
 From UP Require Import Base.Chars Base.Atoms Model.Uri Model.Ip4 Model.Parse Model.Common Model.Compare
   Model.Resolve Model.Shorten Model.Normalize Model.Recompose Model.Mem Model.ParseM Model.OpsM.
